@@ -1,12 +1,16 @@
 import Driver.Proto
 import Driver.Tcp
 import Driver.MType
+import Driver.Attr
+import Driver.Msg
 open Driver
 
 def dispatch (l : Line) : Verdict :=
   match l.fam with
   | "tcp" => TcpFam.handle l
   | "mtype" => MTypeFam.handle l
+  | "attr" => AttrFam.handle l
+  | "msg" => MsgFam.handle l
   | f => .bad s!"unknown family {f}" ""
 
 partial def loop (h : IO.FS.Stream) (out : IO.FS.Stream) : IO Unit := do
